@@ -8,7 +8,9 @@ pub mod c03_shell;
 pub mod c04;
 pub mod c05;
 pub mod c07;
+pub mod c06;
 pub mod c08;
+pub mod c09;
 pub mod c11;
 pub mod c12;
 pub mod c13;
@@ -37,8 +39,10 @@ pub fn all() -> Vec<Prop> {
         Prop { info: &c04::INFO, run: c04::run, replay: c04::replay },
         Prop { info: &c02::INFO10, run: c02::run10, replay: c02::replay10 },
         Prop { info: &c05::INFO, run: c05::run, replay: c05::replay },
+        Prop { info: &c06::INFO, run: c06::run, replay: c06::replay },
         Prop { info: &c07::INFO, run: c07::run, replay: c07::replay },
         Prop { info: &c08::INFO, run: c08::run, replay: c08::replay },
+        Prop { info: &c09::INFO, run: c09::run, replay: c09::replay },
         Prop { info: &c11::INFO, run: c11::run, replay: c11::replay },
         Prop { info: &c12::INFO, run: c12::run, replay: c12::replay },
         Prop { info: &c13::INFO, run: c13::run, replay: c13::replay },
